@@ -51,6 +51,7 @@ func runC16(r *fw.Run, p *fw.Program) {
 	as := x.asn1()
 	x.repr([]*c16Format{mp, cb, bs, be, as})
 	x.text()
+	x.xmlNS()
 }
 
 // runC16TextOnly runs only the text-decoder rules (borrowed by C07 for fromjson).
@@ -328,6 +329,8 @@ func (x *c16) op(c *ssa.Call, e *c16Eval) (c16Op, bool) {
 	}
 	name := callee.Name()
 	o := c16Op{Call: c, Name: name, Kind: "Other", Args: c.Common().Args[1:]}
+	// FieldScalarU2 / FieldScalarBool ... read what FieldU2 / FieldBool read and return the scalar
+	name = strings.Replace(name, "FieldScalar", "Field", 1)
 	ai := 0
 	if strings.HasPrefix(name, "Field") && len(o.Args) > 0 {
 		if s, ok := constString(o.Args[0]); ok {
